@@ -32,7 +32,7 @@ theorem undoCall_ok_iff (resolve : Resolver) {newer : Log} {T : Txn} {older : Lo
         verdictFor resolve (S ++ flat (newer ++ T :: older)) T older oid ≠ .refuse := by
   rw [undoCall_eq resolve hInv, hp]
   simp only [Bool.false_eq_true, if_false]
-  have hiff := undoLoop_fail_iff resolve hInv hS
+  have hiff := undoLoop_fail_iff resolve hInv hp hS
   constructor
   · rintro ⟨x, hx⟩ oid ho hv
     split at hx
@@ -65,18 +65,19 @@ theorem undoCall_ok (resolve : Resolver) {newer : Log} {T : Txn} {older : Log}
   by_cases hp : T.packed = true
   · rw [if_pos hp] at h; simp at h
   · rw [if_neg hp] at h
+    have hp' : T.packed = false := by simpa using hp
     simp only at h
     split at h
     · rename_i hnil
       simp only [Except.ok.injEq, Prod.mk.injEq] at h
       obtain ⟨h1, h2⟩ := h
-      have hN := undoLoop_staged resolve hInv utid S
-      have hiff := undoLoop_fail_iff resolve hInv hS
+      have hN := undoLoop_staged resolve hInv hp' utid S
+      have hiff := undoLoop_fail_iff resolve hInv hp' hS
       have hnoref : ∀ oid ∈ T.oids, verdictFor resolve (S ++ F) T older oid ≠ .refuse := by
         intro oid ho hv
         have := (hiff oid).2 ⟨ho, hv⟩
         rw [hnil] at this; simp at this
-      refine ⟨_, h1.symm, h2.symm, ?_, by simpa using hp, rfl, ?_, hnoref⟩
+      refine ⟨_, h1.symm, h2.symm, ?_, hp', rfl, ?_, hnoref⟩
       · rw [← h1]
         intro x hx
         rcases List.mem_append.1 hx with hx | hx
@@ -91,7 +92,7 @@ theorem undoCall_ok (resolve : Resolver) {newer : Log} {T : Txn} {older : Log}
           exact List.mem_map.2 ⟨r, hr, by rw [hro, hxo]⟩
         · intro ho
           obtain ⟨r, k, hn⟩ := newestFor_isSome_of_mem ho
-          have hrec := undoRecord_ctx resolve hInv hS hn
+          have hrec := undoRecord_ctx resolve hInv hp' hS hn
           have hv := hnoref oid ho
           cases hpl : verdictPayload r (verdictFor resolve (S ++ F) T older oid) with
           | none => exact absurd (verdictPayload_eq_none.1 hpl) hv
@@ -156,7 +157,7 @@ theorem undoTxn_inv (resolve : Resolver) {L : Log} (hInv : Inv L) (utid : Nat)
   | ok S =>
     rw [ha] at h
     simp only [Prod.mk.injEq, and_true] at h
-    refine ⟨_, h.symm, rfl, rfl, ?_, hu, hInv⟩
+    refine ⟨_, h.symm, rfl, rfl, ?_, hu, (fun hc => by cases hc), hInv⟩
     exact undoAll_staged resolve hInv utid ids [] S (stagedOK_nil _ _) ha
 
 /-! ### untouched objects and earlier revisions -/
@@ -172,7 +173,7 @@ theorem loadBefore_staged {utid : Nat} {F N : List Rec} (hN : StagedOK utid F N)
     apply chaseBefore_newer
     intro n hn ho
     have := hN n hn
-    exact ⟨by rw [this.1]; exact hb, by rw [← ho]; exact this.2.1⟩
+    exact ⟨by rw [this.1]; exact hb, by rw [← ho]; exact this.2.1 rfl⟩
   · rw [loadBefore_append_of_not_mem oid b N F hk]
 
 theorem loadSerial_staged {utid : Nat} {F N : List Rec} (hN : StagedOK utid F N) (oid s : Nat)
@@ -181,7 +182,7 @@ theorem loadSerial_staged {utid : Nat} {F N : List Rec} (hN : StagedOK utid F N)
   apply chaseSerial_newer
   intro n hn ho
   have := hN n hn
-  exact ⟨by rw [this.1]; exact hs, by rw [← ho]; exact this.2.1⟩
+  exact ⟨by rw [this.1]; exact hs, by rw [← ho]; exact this.2.1 rfl⟩
 
 /-! ### undoing the newest transaction -/
 
